@@ -204,6 +204,8 @@ type Exec struct {
 	writeLog      map[string]bool // heap components written (for havoc fail-safe)
 	frames        []*Frame
 	lastSpecState *State
+	lastPreserved [2]Value
+	lastPreservedSt *State
 	recActive     map[*ssa.Function]string
 	recDone       map[string]bool
 	recParams     []Value
